@@ -374,6 +374,8 @@ type 'a res =
 
 val bind : 'a1 res -> ('a1 -> 'a2 res) -> 'a2 res
 
+val is_ok : 'a1 res -> bool
+
 val res_map : ('a1 -> 'a2) -> 'a1 res -> 'a2 res
 
 val eNotEnoughBits : n
@@ -1841,6 +1843,12 @@ val any_parse : bits -> ((n * n) option * bits) res
 
 val addr_parse : bits -> (addrv * bits) res
 
+val any_ok : (n * n) option -> bool
+
+val zfits : nat -> z -> bool
+
+val addr_ok : addrv -> bool
+
 val enc : ty list -> nat -> ty -> value -> bld -> bld res
 
 val dec : ty list -> nat -> ty -> slc -> (value * slc) res
@@ -1848,6 +1856,8 @@ val dec : ty list -> nat -> ty -> slc -> (value * slc) res
 val ty_depth : ty -> nat
 
 val fuel_of : ty list -> ty -> nat
+
+val encode0 : ty list -> ty -> value -> ctree res
 
 val put_list : ty list -> nat -> ty -> value list -> bld -> bld res
 
@@ -2333,6 +2343,8 @@ val parse_message :
   oracle -> slc0 -> (((info * (bool * state_init)
   option) * bool) * (bits * cell list)) res
 
+val decode_message_body : oracle -> bytes res -> cell -> msg1 res
+
 val decode_message_gen : oracle -> bytes res -> cell -> msg1 res
 
 type wst = bits * bool
@@ -2359,6 +2371,12 @@ val norm_cell : addr -> (bits * cell list) -> cell res
 
 val msg_hash : (bytes -> bytes) -> bool -> msg1 -> bytes res
 
+val decode_message : (bytes -> bytes) -> oracle -> cell -> msg1 res
+
+val clear_info_anycast : info -> info
+
+val after_hash : bool -> msg1 -> msg1
+
 type tx = { tx_hash : bytes; tx_src : cell; tx_account : bits; tx_lt : 
             n; tx_prev_hash : bits; tx_prev_lt : n; tx_now : n;
             tx_outmsg_cnt : n; tx_orig : n; tx_end : n;
@@ -2374,6 +2392,57 @@ val decode_tx_gen :
 val cached_hash_of : imm res list -> nat -> bytes res
 
 val cached_hash : (bytes -> bytes) -> node list -> nat -> bytes res
+
+val dict_tree : (slc0 -> unit res) -> nat -> nat -> cell -> nat -> unit res
+
+val dict_accepts : (slc0 -> unit res) -> nat -> cell -> bool
+
+val val_var32 : slc0 -> unit res
+
+val val_simple_lib : slc0 -> unit res
+
+val val_ref_message : oracle -> (cell -> bytes res) -> slc0 -> unit res
+
+val parse_maybe : (slc0 -> slc0 res) -> slc0 -> slc0 res
+
+val skip0 : nat -> slc0 -> slc0 res
+
+val skip_grams : slc0 -> slc0 res
+
+val skip_var : nat -> slc0 -> slc0 res
+
+val in_ref : (slc0 -> slc0 res) -> slc0 -> slc0 res
+
+val acst : slc0 -> slc0 res
+
+val storage_ph : slc0 -> slc0 res
+
+val credit_ph : oracle -> slc0 -> slc0 res
+
+val compute_vm : slc0 -> slc0 res
+
+val compute_ph : slc0 -> slc0 res
+
+val action_ph : slc0 -> slc0 res
+
+val maybe_action : slc0 -> slc0 res
+
+val storage_used : slc0 -> slc0 res
+
+val bounce_ph : slc0 -> slc0 res
+
+val split_info : slc0 -> slc0 res
+
+val any_ref : slc0 -> slc0 res
+
+val parse_descr : oracle -> slc0 -> slc0 res
+
+val msg_oracle : oracle
+
+val real_oracle : (cell -> bytes res) -> oracle
+
+val decode_message_resolving :
+  (bytes -> bytes) -> (bytes -> cell res) -> oracle -> cell -> msg1 res
 
 type 's tvar = { tv_hash : bytes; tv_src : 's option; tv_val : tx option }
 
@@ -2398,11 +2467,9 @@ val msg_assign_res :
 
 val msg_obs_hash : (bytes -> bytes) -> bool -> mvar -> bytes res
 
-val cell_eqb : cell -> cell -> bool
+val msg_after_hash : bool -> mvar -> mvar
 
-val table_lookup0 : cell res list -> bits -> cell -> bool
-
-val table_oracle : cell res list -> bits -> bits -> oracle
+val the_oracle : oracle
 
 val info_kind : info -> n
 
@@ -2418,6 +2485,8 @@ val with_root0 :
   sx -> (oracle -> node list -> nat -> cell -> imm res list -> sx) -> sx
 
 val run_msg0 : sx -> sx
+
+val run_lib : sx -> sx
 
 val parses_back : bytes -> bytes -> bool
 
@@ -2957,7 +3026,7 @@ val parse_magic : str -> n res
 
 val s_null : str
 
-val parse_maybe : (str -> 'a1 res) -> str -> 'a1 option res
+val parse_maybe0 : (str -> 'a1 res) -> str -> 'a1 option res
 
 val print_cell : ('a1 -> n list res) -> 'a1 -> str res
 
@@ -3473,6 +3542,10 @@ val hm_decode :
   (ys -> ct -> ys yres) -> (ys -> ct -> ys yres) option -> nat -> n -> ys ->
   ct -> ys yres
 
+val cell_w : bits -> n
+
+val tsz : xtree -> n
+
 type yty =
 | YUint of nat
 | YInt of nat
@@ -3508,12 +3581,14 @@ type yty =
 | YRawCell
 | YText
 | YBinTree of n * yty
+| YHashed of yty
+| YRefRaw of yty
 
 val sub_slice : xtree -> bool -> ys option
 
-val ydec : yty list -> nat -> yty -> ys -> ct -> ys yres
+val ydec : yty list -> (xtree -> bool) -> nat -> yty -> ys -> ct -> ys yres
 
-val yunmarshal : yty list -> nat -> yty -> xtree -> ys yres
+val yunmarshal : yty list -> (xtree -> bool) -> nat -> yty -> xtree -> ys yres
 
 val eFrame : n
 
@@ -3563,6 +3638,14 @@ val run_tl0 : sx -> sx
 val yty_of_sx : nat -> sx -> yty option
 
 val xtree_of_sx : nat -> sx -> xtree option
+
+val bits_eqb2 : bits -> bits -> bool
+
+val xtree_eqb : xtree -> xtree -> bool
+
+val at_path : xtree -> sx list -> xtree option
+
+val hash_oracle : xtree -> sx list -> xtree -> bool
 
 val run_tlb0 : sx -> sx
 
@@ -3826,6 +3909,19 @@ val v5beta_bits : n -> n -> z -> n -> z -> n -> bits
 
 val v5r1_bits : n -> n -> z -> n -> bits
 
+type extaction =
+| XAdd of addrv
+| XRemove of addrv
+| XSetSig of bool
+
+val ext_action_bits : extaction -> bits res
+
+val opt_list : 'a1 option -> 'a1 list
+
+val ext_tail : extaction list -> cell option res
+
+val v5r1x_parts : extaction list option -> (bits * cell list) res
+
 val hl_entries : nat -> rawmsg list -> (bits * cell0) list option
 
 val hl_query : z -> n -> n
@@ -3868,6 +3964,13 @@ val create_body :
   (cell -> bytes res) -> ('a1 -> bytes -> bits) -> wallet -> 'a1 -> rawmsg
   list -> n -> z -> n -> n -> cell res
 
+val unsigned_v5r1x :
+  wallet -> rawmsg list -> extaction list option -> n -> z -> n -> cell res
+
+val create_body_v5r1x :
+  (cell -> bytes res) -> ('a1 -> bytes -> bits) -> wallet -> 'a1 -> rawmsg
+  list -> extaction list option -> n -> z -> n -> cell res
+
 val ext_bits : z -> bits -> bool -> bits
 
 val ext_msg : z -> bits -> cell option -> cell -> cell res
@@ -3876,11 +3979,34 @@ val raw_send_msg :
   (cell -> bytes res) -> ('a1 -> bytes -> bits) -> wallet -> 'a1 -> z -> bits
   -> n -> z -> rawmsg list -> cell option -> n -> (bytes * cell) res
 
+val dict_skip :
+  nat -> (bits -> cell0 list -> bool) -> bits -> cell list -> (bits * cell
+  list) res
+
+val simplelib_ok : bits -> cell0 list -> bool
+
+val varuint32_ok : bits -> cell0 list -> bool
+
+val stateinit_dec : bits -> cell list -> (bits * cell list) res
+
 val stateinit_ok : cell -> unit res
 
-type extmsg = { e_wc : n; e_addr : bits; e_init : cell option; e_body : cell }
+val grams_dec : bits -> (n * bits) res
+
+type msginfo =
+| IInt0 of bool * bool * bool * addrv * addrv * n * n * n * n * n
+| IExtIn0 of addrv * addrv * n
+| IExtOut0 of addrv * addrv * n * n
+
+val info_dec : bits -> cell list -> ((msginfo * bits) * cell list) res
+
+type extmsg = { e_info : msginfo; e_init : cell option; e_body : cell }
+
+val drop_suffix : 'a1 list -> 'a1 list -> 'a1 list
 
 val parse_ext : (cell -> bytes res) -> cell -> extmsg res
+
+val int8_of : z -> z
 
 val split_signed : cell -> (bits * cell) res
 
@@ -3908,6 +4034,14 @@ val first_ref : cell list -> cell res
 
 val decode_v5beta : cell -> decoded res
 
+val ext_one : bits -> (extaction * bits) res
+
+val ext_chain_dec : cell -> extaction list res
+
+val ext_dec_body : bits -> cell list -> (extaction list * bits) res
+
+val decode_v5r1x : cell -> (decoded * extaction list option) res
+
 val decode_v5r1 : cell -> decoded res
 
 val hl_values : (bits * cell0) list -> rawmsg list res
@@ -3915,6 +4049,32 @@ val hl_values : (bits * cell0) list -> rawmsg list res
 val decode_hl : cell -> decoded res
 
 val decode_msg : (cell -> bytes res) -> version -> cell -> decoded res
+
+val stateinit_ty : ty
+
+val currencies_ty : ty
+
+val msginfo_ty : ty
+
+val msg_ty : ty
+
+type transfer = { t_amount : n; t_wc : z; t_addr : bits; t_bounce : bool;
+                  t_body : ctree option; t_init : (ctree * ctree) option;
+                  t_mode : n }
+
+val transfer_value : transfer -> value
+
+val cell_of_ct : ctree -> cell
+
+val ct_of_cell : cell -> ctree option
+
+val internal_ct : transfer -> ctree res
+
+val internal_msg : transfer -> rawmsg res
+
+val internal_msgs : transfer list -> rawmsg list res
+
+val comment_body : bytes -> ctree
 
 val xhash : cell -> bytes res
 
@@ -3938,7 +4098,29 @@ val out_res1 : ('a1 -> sx) -> 'a1 res -> sx
 
 val hash_sx : cell -> sx
 
+val any_sx0 : (n * n) option -> sx
+
+val any_of_sx0 : sx -> (n * n) option
+
+val addr_sx0 : addrv -> sx
+
+val addr_of_sx0 : sx -> addrv
+
+val ext_sx : extaction -> sx
+
+val ext_of_sx : sx -> extaction
+
+val exts_of_sx : sx -> extaction list option
+
+val exts_sx : extaction list option -> sx
+
 val run_send : sx -> sx
+
+val opt_ct : sx -> ctree option option
+
+val transfer_of_sx : sx -> transfer option
+
+val transfers_of_sx : sx list -> transfer list option
 
 val run_body : sx -> sx
 
@@ -3997,6 +4179,14 @@ val api_generate_state_init :
   (version -> cell) -> bits -> version -> z option -> z -> n option -> cell
   res
 
+val count_words : bytes -> nat
+
+val seed_accepted : bytes -> n -> bool
+
+val api_from_seed :
+  (version -> cell) -> (cell -> bytes res) -> bytes -> n -> bits ->
+  (z * bytes) res
+
 type acct =
 | ANone1
 | AUninit
@@ -4030,7 +4220,7 @@ val send_v2 :
   wallet -> 'a1 -> acct option -> rawmsg list -> z -> n -> z -> bool -> poll
   list -> sent
 
-val addr_sx0 : (z * bytes) -> sx
+val addr_sx1 : (z * bytes) -> sx
 
 val run_addr0 : sx -> sx
 
@@ -4097,5 +4287,45 @@ val sx_rows : cell res -> sx
 val run_built : sx -> sx
 
 val run_built_key : sx -> sx
+
+val first_byte : bits -> n
+
+type hstep0 =
+| HWrite of nat * bits
+| HRef of nat * nat
+| HType of nat * bool * n
+| HSer of nat * nat * bool * bool * bool * nat
+
+val empty_cell : node
+
+val hist_init : nat -> node list
+
+val with_bits : node -> bits -> node
+
+val with_nrefs : node -> nat list -> node
+
+val with_type : node -> bool -> n -> n -> node
+
+val hist_mutate : node list -> hstep0 -> node list option
+
+val ser_request :
+  (node list -> bytes res list) -> node list -> nat -> nat -> bool -> bool ->
+  bool -> bytes res
+
+val request_ok : node list -> hstep0 -> bool
+
+val hist_run :
+  (node list -> bytes res list) -> node list -> hstep0 list -> (node
+  list * ((node list * nat) * bytes res) list) option
+
+val hstep_of_sx : sx -> hstep0 option
+
+val hsteps_of_sx : sx list -> hstep0 list option
+
+val small_step : n -> sx -> bool
+
+val out_sx : ((node list * nat) * bytes res) -> sx
+
+val run_hist1 : sx -> sx
 
 val run : string -> sx -> sx
